@@ -78,3 +78,9 @@ claim("C27", "exploration",
       "Generated package libraries (package constants, nested package, models using/extending each other) are split into 2-4 files with within clauses; the files are merged with Tree.extend in every permutation and through tools.compiler.parse_all and the CasADi API directory walk under two file-name layouts; every model must flatten identically in every order and identically to the unsplit text.",
       "flat results compared through a semantic projection; directory walk order is only varied through file names",
       "DESIGN.md section 4, C27")
+
+claim("C04", "exploration",
+      "reference-model monitor on parser.parse (field-by-field comparison with the generator's class description) + aliasing probe + duplicate rejection",
+      "Generated class texts with multi-declarator clauses (own subscripts, modifications, comments), every prefix and prefix pair, type subscripts, interleaved public/protected sections, several (initial) equation/algorithm sections in any order, nested classes two deep, extends with modifiers and the four import forms are parsed by the committed parser (and the regenerated one when its ATN differs) and compared with the description; on a pickle clone one symbol is mutated and no other symbol may change; duplicate declarations must be rejected.",
+      "expressions inside declarations and sections are compared by value (their shape is C03's subject); default-section visibility only has to be consistent and not PROTECTED",
+      "DESIGN.md section 4, C04")
